@@ -6,6 +6,7 @@ import (
 	"strings"
 	"testing"
 	"time"
+	"unicode"
 
 	"github.com/alpacahq/marketstore/v4/sqlparser"
 	"github.com/alpacahq/marketstore/v4/utils/io"
@@ -42,6 +43,24 @@ func genSQLStore(t *rapid.T, rec *hx.Rec, variable bool) *storeCase {
 	schema := hx.GenSchema(t, 3, sqlSchemaTypes)
 	for i := range schema {
 		schema[i].Name = "zz" + schema[i].Name // never an SQL keyword (BY, AS, IN, ...)
+	}
+	if len(schema) >= 2 && rapid.IntRange(0, 7).Draw(t, "caseTwin") == 0 {
+		// two columns whose names differ only in case (KF-20b: SELECT * used to drop one of them)
+		twin := []rune(schema[0].Name)
+		for i, r := range twin {
+			if i >= 2 && unicode.IsLetter(r) {
+				if unicode.IsUpper(r) {
+					twin[i] = unicode.ToLower(r)
+				} else {
+					twin[i] = unicode.ToUpper(r)
+				}
+				break
+			}
+		}
+		if string(twin) != schema[0].Name {
+			schema[1].Name = string(twin)
+			rec.Class("schema-with-names-differing-only-in-case", 1)
+		}
 	}
 	b := &hx.Bucket{Sym: "Q", TF: tf, Group: "G", Variable: variable, Schema: schema}
 	sc := &storeCase{b: b, m: hx.NewMBucket(b)}
